@@ -73,6 +73,11 @@ struct Plan {
     chaos_events: usize,
     add_node: bool,
     span_ms: u64,
+    /// PerShard(pool) instead of PerHost(pool) (sharded nodes only).
+    per_shard: bool,
+    /// The client may not use the shard-aware port: connections land on whatever shard the
+    /// node picks, and those that land on a shard which has enough already are set aside.
+    no_shard_aware_port: bool,
 }
 
 pub fn run(req: &RunRequest) -> Value {
@@ -86,6 +91,8 @@ pub fn run(req: &RunRequest) -> Value {
             chaos_events: tape::choose("c20:chaos_events", 8) as usize,
             add_node: tape::chance("c20:add_node", 1, 3),
             span_ms: tape::range("c20:span", 500, 4000),
+            per_shard: tape::chance("c20:per_shard", 1, 3),
+            no_shard_aware_port: tape::chance("c20:no_shard_aware_port", 1, 3),
         };
         ZERO_TOKEN.store(tape::chance("c20:zero_token_node", 1, 5), std::sync::atomic::Ordering::Relaxed);
         let mut cluster = Cluster::new("c20");
@@ -186,7 +193,12 @@ async fn main(plan: Plan) -> Outcome {
     }
     let cfg = SessionCfg {
         contact_nodes: vec![0],
-        pool: PoolSize::PerHost(NonZeroUsize::new(plan.pool).unwrap()),
+        pool: if plan.per_shard && plan.shards > 0 {
+            PoolSize::PerShard(NonZeroUsize::new(plan.pool.min(2)).unwrap())
+        } else {
+            PoolSize::PerHost(NonZeroUsize::new(plan.pool).unwrap())
+        },
+        disallow_shard_aware_port: plan.no_shard_aware_port,
         retry: Some(Arc::new(DefaultRetryPolicy::new())),
         request_timeout: Some(Duration::from_secs(20)),
         keepalive_interval: Some(Duration::from_secs(3)),
@@ -336,6 +348,13 @@ async fn main(plan: Plan) -> Outcome {
         let via_query = tape::chance("c20:via_query", 1, 3);
         let res: Result<Result<(), String>, _> = if via_query {
             let text = if case_sensitive { format!("USE \"{name}\"") } else { format!("USE {name}") };
+            // 1 in 2 such statements carry a request timeout that may run out while the
+            // keyspace is still being set on the other connections: then the call fails -
+            // it may not report success before every connection has acknowledged.
+            let mut text = Statement::new(text);
+            if tape::chance("c20:use_statement_timeout", 1, 2) {
+                text.set_request_timeout(Some(Duration::from_millis(tape::range("c20:use_statement_timeout_ms", 30, 400))));
+            }
             out.count("use_via_query", 1);
             // ... unpaged, as one manually fetched page, or through the paging iterator.
             match tape::choose("c20:via_query_api", 3) {
